@@ -256,13 +256,16 @@ fn exec_read(case: &Value, tag: &str) -> Value {
     let mut feat: BTreeMap<String, u64> = BTreeMap::new();
     let mut last = None;
     let mut backend = None;
+    // "prov" = the store is provisioned under ANOTHER method / pass key and re-keyed to (method, pass) after the writes: the format
+    // of the re-keyed store (config key entry, EVERY profile key wrapped under the new store key) must be the documented one
+    let (pmethod, ppass) = match case.get("prov").filter(|p| !p.is_null()) { Some(p) => (s(p, "method"), s(p, "pass")), None => (method.clone(), pass.clone()) };
     for attempt in 0..10 {
-        match block_on(async { uri.as_str().provision_backend(method_of(&method), passkey(&method, &pass), Some(default.clone()), true).await }) {
+        match block_on(async { uri.as_str().provision_backend(method_of(&pmethod), passkey(&pmethod, &ppass), Some(default.clone()), true).await }) {
             Ok(b) => { backend = Some(b); break }
             Err(e) => { last = Some(e); std::thread::sleep(std::time::Duration::from_millis(20 * (attempt + 1))); }
         }
     }
-    let Some(backend) = backend else { return json!({"out": {"err": format!("provision:{}", err_name(last.unwrap().kind()))}, "oracle": [{"sig": format!("read:provision-failed:{}", method)}]}) };
+    let Some(mut backend) = backend else { return json!({"out": {"err": format!("provision:{}", err_name(last.unwrap().kind()))}, "oracle": [{"sig": format!("read:provision-failed:{}", method)}]}) };
     // reference: what the store must contain (insertion order = id order; replace keeps the row, remove drops it)
     let mut reference: BTreeMap<String, Vec<Rec>> = BTreeMap::new();
     let res: Result<(), askar_storage::Error> = block_on(async {
@@ -298,6 +301,14 @@ fn exec_read(case: &Value, tag: &str) -> Value {
         close(backend);
         cleanup(&Some(path));
         return json!({"out": {"err": format!("write-ops:{}", err_name(e.kind()))}, "oracle": [{"sig": format!("read:ops-failed:{}:{}", err_name(e.kind()), method)}]});
+    }
+    if case.get("prov").map_or(false, |p| !p.is_null()) {
+        *feat.entry("rekeyed".into()).or_default() += 1;
+        if let Err(e) = block_on(async { backend.rekey(method_of(&method), passkey(&method, &pass)).await }) {
+            close(backend);
+            cleanup(&Some(path));
+            return json!({"out": {"err": format!("rekey:{}", err_name(e.kind()))}, "oracle": [{"sig": format!("read:rekey-failed:{}:{}", err_name(e.kind()), method)}]});
+        }
     }
     let view = library_view(&backend);
     close(backend);
@@ -820,7 +831,13 @@ fn gen_read(r: &mut Rng, id: String, method: &str) -> Value {
         }
         profiles.push(json!({"name": n, "ops": ops}));
     }
-    json!({"kind": "c09:read", "id": id, "method": method, "pass": pass, "profiles": profiles})
+    let mut case = json!({"kind": "c09:read", "id": id, "method": method, "pass": pass, "profiles": profiles});
+    if r.chance(1, 3) {
+        let pm = *r.pick(&["raw", "none", "raw"]);
+        let (pp, _) = gen_pass(r, pm);
+        case["prov"] = json!({"method": pm, "pass": pp});
+    }
+    case
 }
 
 fn gen_write(r: &mut Rng, id: String, method: &str) -> Value {
